@@ -290,6 +290,31 @@ def run(ck: Check):
             n = sum(1 for x, y in zip(a["compiled"], b["compiled"]) if x != y)
             ck.disagree("library loaded in another process computes something else than the compiling instance",
                         dict(case, differing_rows=n), signature={"what": "lib-roundtrip", "W": p["W"]})
+    # a path that is saved to TWICE with models of the same architecture (same library size, other gates): another process loading the
+    # path gets the library of the second save
+    rs_jobs = [dict(kind_of_job="resave", kind=kind, models=[3, 4], W=W, lib_path=os.path.join(ck.scratch, f"resave_{kind}_{W}.so"))
+               for kind, W in (("dense", 64), ("conv2d", 8))]
+    rs_res = subproc.run_jobs(ck.scratch, rs_jobs, workers=2)
+    rl_jobs, rl_idx = [], []
+    for j, r in zip(rs_jobs, rs_res):
+        case = {"kind": "re-save-then-load", "model": j["kind"], "W": j["W"]}
+        ck.case(case, nontrivial=True, kind="re-save")
+        if not r["done"] or not r["steps"]:
+            ck.disagree("saving twice to one path failed", dict(case, stderr=r["stderr"][-300:]), signature={"what": "resave-failed"})
+            continue
+        a = r["steps"][0]
+        if a["compiled"][0] == a["compiled"][1]:
+            ck.broke("correspondence", "harness", "the two models of the re-save case compute the same outputs on the probe batch")
+            continue
+        rl_jobs.append(dict(kind_of_job="reload-lib", lib_path=j["lib_path"], W=j["W"], input_shape=a["input_shape"], k=a["k"], n_out=a["n_out"]))
+        rl_idx.append((case, a))
+    for (case, a), r in zip(rl_idx, subproc.run_jobs(ck.scratch, rl_jobs, workers=2)):
+        if not r["done"] or not r["steps"]:
+            ck.disagree("loading a re-saved library failed", dict(case, stderr=r["stderr"][-300:]), signature={"what": "reload-failed", "kind": "re-save"})
+        elif r["steps"][0]["compiled"] != a["compiled"][1]:
+            which = "the FIRST save" if r["steps"][0]["compiled"] == a["compiled"][0] else "neither save"
+            ck.disagree("a library loaded from a path that was saved to twice does not compute what the second compiling instance computed",
+                        dict(case, loaded_equals=which), signature={"what": "lib-roundtrip", "kind": "re-save"})
     # a checkpoint of a layer with another geometry must not install wiring that does not fit (F33): either the load is refused or the
     # layer afterwards still computes with wires inside its own input / windows at its own positions
     from torchlogix.layers import LogicDense, LogicConv2d
